@@ -274,6 +274,8 @@ Check(e) ==
                           v2 == UpdateVal(v1, m, ZeroW, b)
                       IN e.r = << Modelled(e.pre, m), Modelled(v1, m) >> /\ e.post = v2
                            /\ WrittenVals(e.instrs) = << v1, v2 >>
+                 [] e.api = "Dr7/Dr0 read;write;read" ->          \* mask carries the previous DR0
+                      e.r = << e.pre, a, e.mask, b >> /\ e.post = a
                  [] e.api = "Cr3::read_raw;Cr3::write_raw;Cr3::read_raw" ->
                       LET lowm == LowMask(12)
                           fm == MaskW(12, 52)
